@@ -36,6 +36,7 @@ EXTRA := -DYR_MAX_STRING_MATCHES=96 -DYR_SLOW_STRING_MATCHES=64
 endif
 ifeq ($(V),cov)
 COV := -fsanitize-coverage=trace-pc
+EXTRA := -DYR_MAX_STRING_MATCHES=96 -DYR_SLOW_STRING_MATCHES=64
 endif
 ifeq ($(V),plain)
 SAN :=
@@ -82,6 +83,7 @@ setup:
 	$(MAKE) -s V=asan engines
 	$(MAKE) -s V=small engines
 	$(MAKE) -s V=cov engines
+	$(MAKE) -s V=plain $(BUILD)/plain/sim_persist
 
 # ---- generated parser / lexer sources ------------------------------------
 $(B)/gen/%.c: $(REPO)/libyara/%.y $(REPO)/libyara/%.c $(VERIF)tools/gen.sh
